@@ -13,6 +13,9 @@
    carried the descriptor of request id (events [EFd]); [EWrite2 id] marks a
    uv_write2 call with a send_handle; [EFdFail id] a failed sendmsg that carried it.  [trace s] is chronological.  Request ids are
    the positions of the uv_write/uv_try_write calls in call order.
+   Ghost events: [EReopen] = a connect set UV_HANDLE_WRITABLE again on a stream where it was
+   clear; [EOrphan ids] = a connect was accepted while the finished requests [ids]
+   waited in write_completed_queue for their callback.
    [acc t id] = bytes of request id the OS accepted; [cb_ids t] = ids of the
    write callbacks in t; [chunks]/[expand]/[bytes_of] spell out the accepted
    byte stream as (request, index) pairs; [sum_rem] sums uv__write_req_size. *)
@@ -95,10 +98,11 @@ Theorem C05_try_write_never_overtakes_reachable :
 Proof. intros. exact (proj1 (final_inv beh blk o sa pw cfg ip ops)). Qed.
 Print Assumptions C05_try_write_never_overtakes_reachable.
 
-(* Shutdown.  (Model of the code after the repairs of uv__stream_io - drain only when
-   write_queue and write_completed_queue are both empty - and of uv__stream_connect -
-   POLLOUT stays armed while a shutdown is pending; after a failed connect the pending
-   shutdown is carried out unless the callback started another connect.)
+(* Shutdown.  (Model of the code after the repairs of uv__stream_io - drain only when no
+   connect is pending and write_queue and write_completed_queue are both empty -, of
+   uv__stream_connect - POLLOUT stays armed while a shutdown is pending; after a failed connect
+   the pending shutdown is carried out unless the callback started another connect - and of
+   uv_shutdown - the watcher is fed only when no connect is pending.)
 
    For every script, behaviour, oracle and start configuration, connect retries included:
    accepted uv_shutdown calls = shutdown callbacks + (1 if one is still pending) at all
@@ -117,7 +121,7 @@ Print Assumptions C05_shutdown_cb_exactly_once.
    (POLLOUT armed or watcher in the pending queue), also when it was issued while the
    connect was pending.  Proved for scripts in which no connect is started again on the
    handle ([noconn]); with connect retries it is checked by the correspondence monitor
-   only (gap: C05_progress_refuted shows what a retry from a write callback does). *)
+   only (gap). *)
 Theorem C05_shutdown_progress_partial :
   forall beh blk o sa pw cfg ip ops,
   noconn ops -> (forall k, noconn (beh k)) ->
@@ -162,7 +166,7 @@ Proof. vm_compute. reflexivity. Qed.
 Example C05_shutdown_while_connecting_former_witnesses :
   trace (exec (fun _ => []) (init false [] 0%Z [] (Some (true, Some 115%positive, [0%Z], [])) false)
               [OShutdown; ORun; ORun]) =
-    [EShut 0; EQ 0; EConnCb 0; ESysShut 0; EShutCb 0; EQ 0; EQ 0] /\
+    [EShut 0; EQ 0; EConnCb 0; EQ 0; ESysShut 0; EShutCb 0; EQ 0] /\
   trace (exec (fun _ => []) (init false [] 0%Z [] (Some (true, Some 115%positive, [111%Z], [])) false)
               [OWrite [3]; OShutdown; ORun; ORun]) =
     [EWrite 0 3; ERet 0 0; EQ 3; EShut 0; EQ 3; EConnCb (-111); ECb 0 UV_ECANCELED 0;
@@ -170,24 +174,73 @@ Example C05_shutdown_while_connecting_former_witnesses :
 Proof. exact shutdown_while_connecting_former_witnesses. Qed.
 
 (* A non-empty write queue, or a pending connect, on a stream that is not closing always has
-   POLLOUT armed or its watcher in the pending queue.  Refuted by the faithful model when a
-   connect is started again from a write callback: uv__stream_io then finds both queues empty
-   and uv__drain stops POLLOUT under the pending connect.  Proved for scripts without such a
-   retry ([noconn]). *)
-Theorem C05_progress_refuted :
-  exists beh cfg ops,
-    let s := exec beh (init false [AErr 32] 0%Z [] cfg false) ops in
-    connecting s = true /\ closing s = false /\ armed s = false /\ fed s = false.
-Proof. exact progress_refuted. Qed.
-Print Assumptions C05_progress_refuted.
-
-Theorem C05_progress_partial :
+   POLLOUT armed or its watcher in the pending queue - for every script, connects started again
+   at top level, from a write callback or from a connect callback included.  (Model of the code
+   after the repair of uv__stream_io: no uv__drain while a connect is pending.) *)
+Theorem C05_progress :
   forall beh blk o sa pw cfg ip ops,
-  noconn ops -> (forall k, noconn (beh k)) ->
   let s := exec beh (init blk o sa pw cfg ip) ops in
   wq s <> [] \/ connecting s = true -> closing s = false -> armed s = true \/ fed s = true.
 Proof. exact progress. Qed.
-Print Assumptions C05_progress_partial.
+Print Assumptions C05_progress.
+
+(* Every connect request accepted with 0 completes exactly once: at all times accepted connects
+   (+ the one the script starts with, [started cfg]) = connect callbacks + (1 if one is pending),
+   and the pending one has a wake-up unless the handle is closing (uv__stream_destroy then runs
+   its callback with UV_ECANCELED - counted by the same equation).  For every script: connects
+   started at top level, from a write callback, from a connect callback, with or without a
+   shutdown pending. *)
+Theorem C05_connect_exactly_once :
+  forall beh blk o sa pw cfg ip ops,
+  let s := exec beh (init blk o sa pw cfg ip) ops in
+  (nconn0 (trace s) + started cfg = nconncb (trace s) + (if connecting s then 1 else 0))%nat /\
+  (connecting s = true -> closing s = false -> armed s = true \/ fed s = true).
+Proof. exact connect_exactly_once. Qed.
+Print Assumptions C05_connect_exactly_once.
+
+(* the input on which a connect started from a write callback was stranded by uv__drain before
+   the repair (0 0 T ; R R W1 R R R R R R ; | Kl Kl | ; ; settle6): the retried connect completes *)
+Example C05_connect_from_write_cb_former_witness :
+  trace (exec beh_strand (init false [AErr 32] 0%Z []
+                            (Some (true, Some 115%positive, [111%Z; 0%Z], [Some 103%positive; Some 115%positive])) false)
+              [ORun; OWrite [1]; ORun; ORun]) =
+    [EConnCb (-111); EQ 0; EWrite 0 1; ERet 0 0; EQ 1; ECb 0 (-32) 0; EConnect (-103); EConnect 0;
+     EConnCb 0; EQ 0; EQ 0].
+Proof. exact connect_from_write_cb_former_witness. Qed.
+
+(* Finished requests get their callback: a request in write_completed_queue has the watcher in
+   the pending queue, so the next loop iteration runs uv__write_callbacks (with
+   C05_cb_exactly_once_in_order: the callback then runs exactly once).
+   Refuted by the faithful model - known finding
+   write_callback_lost_when_connect_started_before_delivery: a connect accepted while a finished
+   request waits turns the fed watcher's next run into uv__stream_connect, which does not look at
+   write_completed_queue; the callback is lost however often the loop runs ([n] more iterations).
+   Proved for every run in which no connect is accepted while a finished request waits (no ghost
+   event EOrphan) - connects at any other time, from any callback, are covered. *)
+Theorem C05_cb_delivered_refuted :
+  exists beh cfg ops, forall n,
+    let s := exec beh (init false [AErr 32] 0%Z [] cfg false) (ops ++ repeat ORun n) in
+    In (ERet 0 0%Z) (trace s) /\ ~ In O (cb_ids (trace s)) /\
+    closing s = false /\ cq s <> [] /\ fed s = false /\ armed s = false.
+Proof. exact cb_delivered_refuted. Qed.
+Print Assumptions C05_cb_delivered_refuted.
+
+Theorem C05_cb_delivered_partial :
+  forall beh blk o sa pw cfg ip ops,
+  let s := exec beh (init blk o sa pw cfg ip) ops in
+  (forall ids, ~ In (EOrphan ids) (trace s)) -> closing s = false ->
+  (cq s <> [] -> fed s = true) /\ (connecting s = true -> cq s = []).
+Proof. exact cb_delivered. Qed.
+Print Assumptions C05_cb_delivered_partial.
+
+(* the failing input of the finding (0 0 T ; R R W1 Kl Kl R R R ; | | | ; ; settle): no ECb 0 *)
+Example C05_cb_delivered_witness_trace :
+  trace (exec (fun _ => []) (init false [AErr 32] 0%Z []
+                               (Some (true, Some 115%positive, [111%Z; 0%Z], [Some 103%positive; Some 115%positive])) false)
+              [ORun; ORun; OWrite [1]; OConnect; OConnect; ORun; ORun; ORun]) =
+    [EConnCb (-111); EQ 0; EQ 0; EWrite 0 1; ERet 0 0; EQ 1; EConnect (-103); EQ 1; EConnect 0; EOrphan [0%nat];
+     EQ 1; EConnCb 0; EQ 1; EQ 1; EQ 1].
+Proof. vm_compute. reflexivity. Qed.
 
 (* While a connect is pending uv_try_write returns UV_EAGAIN without a system
    call, and uv_write only queues (no system call, POLLOUT untouched). *)
